@@ -119,9 +119,9 @@ def nextBlock (ts : List Tok) : Option (List Tok × List Tok) :=
   match skipEmptyLines (ts.length + 1) ts with
   | none => none
   | some (li, rest) =>
-    let (more, rest') := if li.isSingleLine then ([], rest) else moreLines (rest.length + 1) rest
-    let block := trimTrailingNewlines (li.toks ++ more)
-    if block.isEmpty then none else some (block, rest')
+    let m := if li.isSingleLine then ([], rest) else moreLines (rest.length + 1) rest
+    let block := trimTrailingNewlines (li.toks ++ m.1)
+    if block.isEmpty then none else some (block, m.2)
 
 /-- all blocks of a token stream -/
 def allBlocks : (fuel : Nat) → List Tok → List (List Tok)
